@@ -425,6 +425,11 @@ pub fn shards(tier: &str) -> Vec<String> {
     for p in 0..NAT_ADD3_PARTS {
         v.push(format!("nat:add3:{p}"));
     }
+    // the count cache of one thread reused across a collection that runs on another thread (C07's scheduler,
+    // script S15: build / count with every node cached / drop, three times, against gc; preemption bound 2)
+    for k in ["bdd", "bcdd", "zbdd"] {
+        v.push(format!("sched:{k}:s15:b2"));
+    }
     if tier == "thorough" {
         for k in ["bdd", "bcdd", "zbdd"] {
             for o in model::perms(4) {
@@ -441,6 +446,10 @@ pub fn run(ctx: &mut Ctx) {
     let shard = ctx.shard.clone();
     let parts: Vec<&str> = shard.split(':').collect();
     match parts[0] {
+        "sched" => {
+            ctx.shard = shard["sched:".len()..].to_string();
+            super::c07::run_script_shard(ctx);
+        }
         "sat" => {
             let order = model::parse_order(parts[2]);
             match parts[1] {
